@@ -44,9 +44,10 @@ Qed.
 Lemma add_all_starts : forall keep ms l s, selects keep ->
   (In s (starts (add_all keep ms l)) <-> In s (starts ms) \/ In s (starts l)).
 Proof.
-  intros keep ms. induction ms as [|m r IH]; intros l s K; cbn.
-  - tauto.
-  - rewrite IH by exact K. rewrite add_starts by exact K. split; intros H; intuition.
+  intros keep ms. induction ms as [|m r IH]; intros l s K.
+  - cbn. tauto.
+  - change (add_all keep (m :: r) l) with (add_all keep r (add keep m l)).
+    rewrite IH by exact K. rewrite add_starts by exact K. cbn. intuition.
 Qed.
 
 Lemma scan_blocks_gen_in : forall keep scan_one blocks acc x, selects keep ->
@@ -65,11 +66,10 @@ Lemma scan_blocks_gen_starts : forall keep scan_one blocks acc s, selects keep -
   (In s (starts (fold_left (scan_block keep scan_one) blocks acc)) <->
    In s (starts (shifted scan_one blocks)) \/ In s (starts acc)).
 Proof.
-  intros keep scan_one blocks. induction blocks as [|b r IH]; intros acc s K; cbn.
-  - tauto.
-  - rewrite IH by exact K. unfold scan_block at 1. rewrite add_all_starts by exact K.
-    unfold starts at 3. rewrite map_app. rewrite in_app_iff. fold (starts (shifted scan_one r)).
-    unfold starts. tauto.
+  intros keep scan_one blocks. induction blocks as [|b r IH]; intros acc s K.
+  - cbn. tauto.
+  - cbn [fold_left]. rewrite IH by exact K. unfold scan_block. rewrite add_all_starts by exact K.
+    cbn [shifted flat_map]. unfold starts. rewrite map_app. rewrite in_app_iff. tauto.
 Qed.
 
 (* C14: every match the block scanner reports is a match of some block
